@@ -145,6 +145,15 @@ type serverStream struct {
 }
 
 func (s *serverStream) SetHeader(md metadata.MD) error {
+	s.headerM.Lock()
+	defer s.headerM.Unlock()
+
+	select {
+	case <-s.headerC:
+		// like a real server: once the headers have gone out (the client may be reading them) they can't be added to
+		return errors.New("headers already sent")
+	default:
+	}
 	s.header = metadata.Join(s.header, md)
 	return nil
 }
